@@ -1552,6 +1552,17 @@ class TLSConnection(TLSRecordLayer):
                         "extensions in a single CertificateEntry."):
                     yield result
 
+            if not cert_ext:
+                # the algorithm must also fit the key in the certificate
+                cert_sig_algs = self._sigHashesToList(
+                    settings, certList=serverCertChain, version=(3, 4))
+                if signature_scheme not in cert_sig_algs:
+                    for result in self._sendError(
+                            AlertDescription.illegal_parameter,
+                            "Server selected signature algorithm "
+                            "incompatible with its certificate"):
+                        yield result
+
             if cert_ext:
                 if not settings.dc_sig_algs:
                     for result in self._sendError(
